@@ -65,6 +65,15 @@ pub fn deliver(ctx: &mut RunCtx, node: &VerifierNode, msg: &Msg, version: PlonkV
     });
     #[cfg(feature = "engine-std")]
     let real_challenges = dusk_plonk::verif::take_challenge_log();
+    // I-canonical: whatever the proof decoder accepts re-encodes to itself
+    if msg.proof.len() >= crate::channel::PROOF_SIZE {
+        use dusk_bytes::Serializable;
+        if let Ok(p) = Proof::from_slice(&msg.proof) {
+            if p.to_bytes()[..] != msg.proof[..crate::channel::PROOF_SIZE] {
+                return Err(Violation::new("I-canonical", "a 1008-byte string accepted by the proof decoder re-encodes differently"));
+            }
+        }
+    }
     let real = match real {
         Ok(d) => d,
         Err(p) => return Err(Violation::new("panic", format!("verifier panicked on a delivered message: {}", p))),
